@@ -51,6 +51,12 @@ class AudioTrack(SampleElement):
             sample_width=self.bytes_per_sample, 
             num_interleaved_channels=2
         )
+        # a track can be generalized (exported) more than once:
+        # always start from the beginning of its data
+        try:
+            self._data_stream.seek(0, SEEK_SET)
+        except OSError:  # placeholder stream that cannot seek
+            pass
         data_streams = [
             DataStream(stream=self._data_stream, encoding=stream_encoding)
         ]
